@@ -1,5 +1,5 @@
 \* as built: the operational touched-set bookkeeping equals the declarative read-after-write conflict
-CONSTANTS CopyOnLookup = FALSE SympyCopies = TRUE LibIds = {1,2,3,4,5,6,7,8,9} MaxReq = 3
+CONSTANTS CopyOnLookup = FALSE SympyCopies = TRUE LibIds = {1,2,3,4,5,6,7,8,9,10,11} MaxReq = 3
           Backends = {"flatten","casadi","sympy","xml"}
 INIT Init
 NEXT Next
